@@ -75,7 +75,7 @@ func (g *c20Gen) defaultFor(class string, added bool) string {
 		return g.pick("0", "1.5", "2", "-0.25")
 	case "string":
 		if g.tricky && g.rng.Intn(3) == 0 {
-			return g.pick("'it''s'", "a b", "x)y", "(none)")
+			return g.pick("'it''s'", "a b", "x)y")
 		}
 		return g.pick("hello", "'quoted'", "abc-1", "''", "x_y")
 	case "bool":
